@@ -212,7 +212,11 @@ fn vacant_sys() -> Sys {
 // set_action on an occupied entry
 // ---------------------------------------------------------------------------
 fn step_set_action_occupied(ak: u8, ok: u8, nk: u8, cmd: &Cmd) {
-    let (g, sys) = pre(ak, ok, kani::any(), cmd);
+    let (g, mut sys) = pre(ak, ok, kani::any(), cmd);
+    // the `trap` built-in reports a system error and carries on: a later sigaction for the same signal may fail even
+    // though an earlier one worked (EINVAL / EPERM from a changed environment). set_action must then leave the record
+    // as it was (added after seed C11-r4-set-action-no-rollback, which the fixed `fails: false` of pre() had hidden)
+    sys.fails = kani::any();
     let cond = Condition::Signal(sys.sig);
     let old_installed = sys.disp.get();
     let old_internal = g.internal_disposition;
